@@ -18,6 +18,7 @@ import concurrent.futures
 import math
 import os
 import struct
+import time
 
 from lib import core
 
@@ -58,6 +59,7 @@ NOT_STRICT = {
 }
 MULTITHREADED = {"pRRT", "pSBL", "CForest", "AnytimePathShortening"}
 SOLUTION = ("EXACT_SOLUTION", "APPROXIMATE_SOLUTION")
+WATCHDOG = [45]          # seconds before a run that neither returns nor polls its termination condition is killed
 
 
 def f2b(x):
@@ -183,7 +185,7 @@ class Problem:
         if self.bias is not None:
             L.append("goalbias " + f2b(self.bias))
         L += ["seed %d" % self.seed, "budget %d %d" % (self.budget, self.pollcap), "mode " + self.mode,
-              "trace %d" % self.trace, "go"]
+              "trace %d" % self.trace, "watchdog %d" % WATCHDOG[0], "go"]
         return L
 
     def key(self):
@@ -423,11 +425,21 @@ def parse_run(lines):
 
 def run_problem(ck, hbin, p, timeout=300):
     # leaks are not this property's subject (several planners leak on the unchanged tree; see notes/C01.md)
-    out, rc, err = ck.run_bin(hbin, p.script(), timeout=timeout,
-                              env={"ASAN_OPTIONS": "detect_leaks=0:abort_on_error=0:exitcode=99"})
+    for attempt in range(8):
+        out, rc, err = ck.run_bin(hbin, p.script(), timeout=timeout,
+                                  env={"ASAN_OPTIONS": "detect_leaks=0:abort_on_error=0:exitcode=99"})
+        if rc == 127 or "error while loading shared libraries" in (err or ""):
+            # libompl.so is being relinked by a concurrent build of the cache: infrastructure, not a result
+            time.sleep(4)
+            continue
+        break
+    else:
+        raise RuntimeError("harness could not be started (shared library unavailable): %s" % (err or "")[-300:])
     if out is None:
         return {"timeout": True, "rc": rc, "sols": [], "done": False, "stderr": ""}
     R = parse_run(out)
+    if rc == -14:
+        R["timeout"] = True
     R["rc"], R["stderr"] = rc, (err or "")[-1500:]
     return R
 
@@ -564,9 +576,11 @@ def check_solution(p, R, sol, top, fails, obs):
             fails.append((pre + "goal", "exact solution ends at goal distance %r, threshold %r" % (gd, p.thr)))
     else:
         if not close(sol["diff"], gd):
-            fails.append((pre + "difference", "approximate solution reports difference %r, goal distance at the last state is %r" % (sol["diff"], gd)))
+            cls = "within-threshold" if abs(sol["diff"] - gd) <= p.thr * (1 + 1e-9) else "beyond-threshold"
+            fails.append((pre + "difference", "approximate solution reports difference %r, goal distance at the last state is %r (%s: threshold %r)" % (sol["diff"], gd, cls, p.thr), {"diff_class": cls}))
         if gd < p.thr:
-            obs["approximate-but-satisfied"] = obs.get("approximate-but-satisfied", 0) + 1
+            k = "approximate-flag-on-a-path-that-satisfies-the-goal:" + p.planner
+            obs[k] = obs.get(k, 0) + 1
     # edge lengths
     dists = []
     for j in range(len(st) - 1):
@@ -610,7 +624,9 @@ def path_is_real(p, R):
     """the executable spec: returns (list of (clause, detail), observations)."""
     fails, obs = [], {}
     if R.get("timeout"):
-        return [("hang", "the run did not finish (watchdog)")], obs
+        # the planner neither returned nor polled its termination condition before the watchdog fired: no status, hence
+        # nothing for this property to judge (interruptibility is C03/C18's subject); counted and listed in the evidence
+        return [], {"hang(no status returned before the watchdog)": 1}
     if R.get("badop"):
         return [("harness", "harness rejected the input: " + R["badop"])], obs
     if R.get("na"):
@@ -710,11 +726,16 @@ def judge(ck, hbin, p, R=None):
     fails, obs = path_is_real(p, R)
     ck.traces_validated += 1
     status = R.get("status", "exception" if R.get("exception") else ("n/a" if R.get("na") else "crash"))
+    if R.get("timeout"):
+        status = "hang"
+        ck.notes.append("hang: %s %s seed=%d budget=%d" % (p.planner, p.tag, p.seed, p.budget))
     nontrivial = status in SOLUTION and bool(R["sols"]) and len(R["sols"][0]["states"]) >= 3
     ck.case(p.key(), nontrivial)
     ck.count("runs")
     ck.count("planner:" + p.planner)
     ck.count("status:" + status)
+    if status in ("UNKNOWN", "INVALID_GOAL", "INVALID_START", "hang", "EXCEPTION"):
+        ck.count("status:%s:%s" % (status, p.planner))
     ck.count("space:" + p.kind + str(len(p.lo)))
     ck.count("gen:" + p.tag)
     if status in SOLUTION and R["sols"] and not R["sols"][0].get("bad"):
@@ -732,12 +753,15 @@ def judge(ck, hbin, p, R=None):
     if not fails:
         return True
     seen = set()
-    for clause, detail in fails:
+    for f in fails:
+        clause, detail = f[0], f[1]
         if clause in seen:
             continue
         seen.add(clause)
         rec = {"engine": "planners", "planner": p.planner, "clause": clause, "class": p.tag, "space": p.kind,
                "interm": p.interm or 0, "what": "%s: %s" % (clause, detail)}
+        if len(f) > 2:
+            rec.update(f[2])
         new = ck.report(rec, script=p.script(), expected="pathIsReal: clause '%s' holds" % clause,
                         observed={"status": R.get("status"), "detail": detail, "queries": R.get("nq"),
                                   "stderr": R.get("stderr", "")[-400:]}, engine="planners")
@@ -822,6 +846,17 @@ def setup(ck):
     ck.build_harness("planners", ["planners.cpp"], link_ompl=True)
 
 
+def pollcap_for(name, budget, which=None):
+    """termination-condition polls allowed (the second, time-free stop criterion next to the evaluation budget).
+    AnytimePathShortening's main thread busy-polls the condition while its worker planners run, so a poll cap would end
+    the run before they did anything: it is bounded by the evaluation budget (and the watchdog) only."""
+    if name == "AnytimePathShortening":
+        return 10 ** 12
+    if which == "goal-in-obstacle":
+        return 300          # planners wait (sleeping 10 ms per poll) for a valid goal sample
+    return budget + 600
+
+
 def plan_quick(ck, names):
     """~3 environments x 2 budgets per planner + a rotating share of the adversarial generators."""
     jobs = []
@@ -832,7 +867,7 @@ def plan_quick(ck, names):
             kind = kinds[e] if name not in MULTILEVEL else "rv3"
             env = gen_env(r, kind, pdim=2 if name in MULTILEVEL else None)
             for budget in (r.choice([150, 400]), r.choice([4000, 8000])):
-                jobs.append(env.clone(planner=name, seed=r.below(1000), budget=budget, pollcap=6 * budget + 2000,
+                jobs.append(env.clone(planner=name, seed=r.below(1000), budget=budget, pollcap=pollcap_for(name, budget),
                                       tag="random", interm=(1 if name in ("RRT", "RRTConnect") and e == 1 else None)))
         if name in MULTILEVEL:
             continue
@@ -841,7 +876,7 @@ def plan_quick(ck, names):
             adv = gen_adversarial(r, which)
             budget = 600 if which == "goal-in-obstacle" else r.choice([500, 5000])
             jobs.append(adv.clone(planner=name, seed=r.below(1000), budget=budget,
-                                  pollcap=(budget + 300 if which == "goal-in-obstacle" else 6 * budget + 2000)))
+                                  pollcap=pollcap_for(name, budget, which)))
     return jobs
 
 
@@ -854,7 +889,7 @@ def plan_thorough(ck, names):
             kind = kinds[e % len(kinds)] if name not in MULTILEVEL else "rv3"
             env = gen_env(r, kind, pdim=2 if name in MULTILEVEL else None)
             for budget in (100, 600, 3000, 12000)[: (4 if e < 6 else 2)]:
-                jobs.append(env.clone(planner=name, seed=r.below(100000), budget=budget, pollcap=6 * budget + 2000,
+                jobs.append(env.clone(planner=name, seed=r.below(100000), budget=budget, pollcap=pollcap_for(name, budget),
                                       interm=(1 if name in ("RRT", "RRTConnect") and e % 3 == 1 else None)))
         if name in MULTILEVEL:
             continue
@@ -863,7 +898,7 @@ def plan_thorough(ck, names):
                 adv = gen_adversarial(r, which)
                 budget = 600 if which == "goal-in-obstacle" else r.choice([500, 5000])
                 jobs.append(adv.clone(planner=name, seed=r.below(100000), budget=budget,
-                                      pollcap=(budget + 300 if which == "goal-in-obstacle" else 6 * budget + 2000)))
+                                      pollcap=pollcap_for(name, budget, which)))
     return jobs
 
 
@@ -894,6 +929,7 @@ def run(ck):
     ck.assumptions += ["state validity is a pure function of the state (box environments)",
                        "interpolation is geodesic for the spaces used (C07), so curve length along an edge is t * distance",
                        "the strict form is demanded only of planners not listed in NOT_STRICT (reasons given there)"]
+    WATCHDOG[0] = 45 if ck.tier == "quick" else 150
     ck.lean_build(["OmplModel.Props.C01", DRIVER])
     ck.audit()
     if ck.tier == "thorough" and ck.lean_ok:
@@ -991,8 +1027,8 @@ def replay(ck, data):
     R = run_problem(ck, hbin, p)
     fails, obs = path_is_real(p, R)
     print("planner %s status %s solutions %s queries %s" % (p.planner, R.get("status"), R.get("after"), R.get("nq")))
-    for c, d in fails:
-        print("PROPERTY FAILS [%s]: %s" % (c, d))
+    for f in fails:
+        print("PROPERTY FAILS [%s]: %s" % (f[0], f[1]))
     if fails:
         return 1
     print("no failure on the current tree")
